@@ -121,8 +121,10 @@ static int child (int ep, int dlk, int ev) {
 	t1 = nsync_time_now ();
 	el = nsync_time_sub (t1, t0); el_ms = (long) NSYNC_TIME_SEC (el) * 1000 + NSYNC_TIME_NSEC (el) / 1000000;
 	if (ev == EV_LATER) pthread_join (th, NULL);
+	{ int cancel = (ep == EP_CV_NOTE || ep == EP_MU_NOTE);          /* for these the awaited event is the cancellation: result ECANCELED */
+	  if (cancel && r == 2) r = 0; else if (cancel && r == 0) r = 3; }
 	if (ep == EP_MU_TRUE) return r == 0 ? 0 : 11;                    /* condition true: success whatever the deadline */
-	if (ev == EV_ALREADY) return r == 0 ? 0 : 12;                       /* event already happened: success result */
+	if (ev == EV_ALREADY) return r == 0 ? 0 : 12;                       /* event already happened: the event's result, whatever the deadline */
 	if (ev == EV_NEVER) {
 		if (dl_is_past (dlk)) return (r == 1 && el_ms < 2000) ? 0 : r != 1 ? 13 : 14;   /* expired: timeout, promptly */
 		if (dlk == DL_NOW_PLUS) return (r == 1 && el_ms >= D_MS - 1 && el_ms < 2000 + D_MS) ? 0 : r != 1 ? 15 : el_ms < D_MS - 1 ? 16 : 14;
